@@ -29,6 +29,8 @@ ASSUMPTIONS = [
     'C09: flat_multiset only has constructors, iteration and size (nothing else exists in tetl): checked = construction from an arbitrary container gives the weakly ascending permutation, sorted_equivalent adopts as is',
     'C09: compile-time defects (static_set::equal_range ill-formed, flat_set::insert(sorted_unique_t,...) never defined) are detected by a compiler probe in spec.py (clang -fsyntax-only on a two-line TU), '
     'not by the solver; while the probe fails the corresponding entries consist of a failing assertion inside the known-finding region',
+    'C02: in the UB build the functional assertions are off except size() <= max_size() after every operation (a size beyond the capacity makes every later begin()..end() walk leave the object; '
+    'the element array, the size member and the tail padding share one object, so CBMC sees the overflowing write of flat_set::insert into a full set only through this)',
     'C09: copy/move construction and assignment, relational operators, key_comp/value_comp, erase_if are not part of the property text and are not exercised',
 ]
 
@@ -42,10 +44,10 @@ def _probe(code, extra=()):
         path = f.name
     try:
         r = subprocess.run(['clang++-16', '-std=c++20', '-fsyntax-only', '-Wno-everything', '-I' + os.path.join(REPO, 'include')] + list(extra) + [path],
-                           stdout=subprocess.PIPE, stderr=subprocess.PIPE, timeout=120)
+                           stdout=subprocess.PIPE, stderr=subprocess.PIPE, timeout=600, text=True)
+        if r.returncode != 0 and 'error:' not in r.stderr:
+            raise RuntimeError('sets/spec.py: compiler probe did not run: ' + r.stderr[-300:])   # infrastructure problem, not a verdict on tetl
         return r.returncode == 0
-    except Exception:
-        return False
     finally:
         os.unlink(path)
 
@@ -134,7 +136,8 @@ def queries(tier, prop='C09'):
                         continue
                     if ub and ss and e.startswith('equal_range') and not eqr_ok:
                         continue
-                    add(e, subj, cmp_, cap, na, confirm_only=co, extra=x)
+                    # measured: minisat is erratic on the lookup entries at NA >= 3 (same query 7 s under less, 245 s under greater); cadical 14-15 s for both
+                    add(e, subj, cmp_, cap, na, confirm_only=co, extra=x, solver='cadical' if na >= 3 else 'minisat')
                 new_open = ss and 'C09_static_set_insert_iterator_new' in opn
                 dup_open = ss and 'C09_static_set_insert_iterator_dup' in opn
                 # static_set: nothing (that carries an assertion) is left outside the two open iterator regions
@@ -196,7 +199,7 @@ def queries(tier, prop='C09'):
                 add('clear', 2, cmp_, cap, na)
                 add('extract', 2, cmp_, cap, na, unwind=max(cap + 3, 22), confirm_only=(not ub and na >= 1 and 'C09_flat_set_extract_empty' in opn))
             for e in LOOKUP + (LOOKUP_H if cmp_ == 2 else []):
-                add(e, 2, cmp_, cap, na)
+                add(e, 2, cmp_, cap, na, solver='cadical' if na >= 3 else 'minisat')
         if full:
             add('default_ctor', 2, cmp_, cap, 0)
         # flat_multiset over static_vector / inplace_vector
@@ -221,5 +224,5 @@ def queries(tier, prop='C09'):
         for subj in (0, 1):
             for na in range(cap + 1):
                 for e in ['find', 'bounds'] + INS + ['erase_key'] + (['erase_it'] if na else []):
-                    add(e, subj, 0, cap, na)
+                    add(e, subj, 0, cap, na, solver='cadical' if (na >= 3 and e in ('find', 'bounds')) or na == cap else 'minisat')
     return out
